@@ -57,11 +57,30 @@ NODE_ADDERS = {"add_node", "add_nodes_from"}
 EDGE_ADDERS = {"add_edge", "add_edges_from", "add_weighted_edges_from"}
 
 
+GRAPH_ONLY = {"add_node", "add_edge", "add_nodes_from", "add_edges_from", "add_weighted_edges_from", "remove_node", "remove_edge", "remove_nodes_from", "remove_edges_from", "clear_edges"}
+
+
 def _is_digraph(T, f: FuncInfo, e: ast.AST) -> bool:
     try:
         return any(m == DIGRAPH for m in members(T.expr(f, e)))
     except Exception:  # noqa: BLE001
         return False
+
+
+def _graph_call(T, f: FuncInfo, c: ast.Call) -> bool:
+    """`c` is a mutator call on a networkx graph: by the receiver's type, or - for an untyped receiver - by a method name that
+    only graphs have (add_node, add_edge, ...)."""
+    if not (isinstance(c.func, ast.Attribute) and c.func.attr in GRAPH_MUTATORS):
+        return False
+    if _is_digraph(T, f, c.func.value):
+        return True
+    if c.func.attr in GRAPH_ONLY:
+        try:
+            ms = members(T.expr(f, c.func.value))
+        except Exception:  # noqa: BLE001
+            ms = []
+        return all(m == ("unknown",) for m in ms)
+    return False
 
 
 def _through_digraph(T, f: FuncInfo, e: ast.AST) -> bool:
@@ -96,7 +115,7 @@ def graph_mutations(repo: Repo) -> list[tuple[FuncInfo, ast.AST, str, ast.AST]]:
         for n in own_nodes(f.node):
             if isinstance(n, ast.Call) and isinstance(n.func, ast.Attribute):
                 a = n.func.attr
-                if a in GRAPH_MUTATORS and _is_digraph(T, f, n.func.value):
+                if _graph_call(T, f, n):
                     out.append((f, n, "node" if a in NODE_ADDERS else "edge" if a in EDGE_ADDERS else "other", n.func.value))
                 elif a in MUTATORS and not _is_digraph(T, f, n.func.value) and _through_digraph(T, f, n.func.value):
                     out.append((f, n, "other", n.func.value))
@@ -174,7 +193,7 @@ class GraphBuild:
                 if _lib_name(self.repo, v, c) == "networkx.freeze":
                     out.setdefault("freeze", []).append(c)
                     continue
-                if isinstance(c.func, ast.Attribute) and c.func.attr in GRAPH_MUTATORS and _is_digraph(T, v, c.func.value):
+                if _graph_call(T, v, c):
                     a = c.func.attr
                     out.setdefault("node" if a in NODE_ADDERS else "edge" if a in EDGE_ADDERS else "other", []).append(c)
                     continue
@@ -251,7 +270,7 @@ def run_r1(repo: Repo, res: Result) -> None:
     graph_classes = []
     for (cfq, attr) in sorted(R._store_index):  # type: ignore[arg-type]
         ci = repo.classes.get(cfq)
-        if ci is not None and ci not in graph_classes and T.attr_type(ci, attr) == DIGRAPH:
+        if ci is not None and ci not in graph_classes and any(m == DIGRAPH for m in members(T.attr_type(ci, attr))):
             graph_classes.append(ci)
     if not graph_classes:
         res.undecide("C15.R1", "src::graph class", "no class keeps a networkx.DiGraph in an instance attribute: the frozen-graph argument has no anchor")
@@ -395,33 +414,22 @@ def _falsy_const(e: ast.expr) -> bool:
     return isinstance(e, ast.Constant) and e.value in (False, None, 0)
 
 
-def _classify_leaf(repo: Repo, v: FuncInfo, leaf: ast.expr, ident: set[str], T) -> tuple[str, set[str], str]:
-    """('identity' | 'rebuild' | 'bad' | 'opaque', flags cleared, detail) for one value stored back into the field."""
-    text = norm(leaf)
-    if text in ident:
-        return "identity", set(), ""
-    if isinstance(leaf, ast.Call):
-        rebuilt_from_old = False
-        kw = {k.arg: k.value for k in leaf.keywords if k.arg is not None}
-        if _is_replace(repo, v, leaf) and leaf.args and norm(leaf.args[0]) in ident:
-            rebuilt_from_old = True
-        elif T.ctor_class(v, leaf) is not None and any(norm(a) in ident or any(norm(x) in ident for x in ast.walk(a) if isinstance(x, (ast.Attribute, ast.Name))) for a in [*leaf.args, *kw.values()]):
-            rebuilt_from_old = True
-        if rebuilt_from_old:
-            guard = guard_formula(v, leaf)
-            cleared = set()
-            for k, val in kw.items():
-                if _falsy_const(val) and any(implies(guard, atom(f"bool({i}.{k})")) for i in ident):
-                    cleared.add(k)
-            if cleared:
-                return "rebuild", cleared, ""
-            return "bad", set(), f"`{norm(leaf, 90)}` builds a new value from the old one on a path that is not guarded by a flag of the old value which the new value clears: applying the rewrite twice differs from applying it once"
-        return "opaque", set(), f"`{norm(leaf, 90)}` is computed by a call that could not be expanded"
-    return "bad", set(), f"`{norm(leaf, 90)}` is neither the old value nor a guarded rebuild of it"
+def _single_assignments(v: FuncInfo) -> dict[str, ast.expr]:
+    """Locals of the view that are bound exactly once, by a plain assignment."""
+    counts: dict[str, int] = {}
+    vals: dict[str, ast.expr] = {}
+    for n in own_nodes(v.node):
+        if isinstance(n, ast.Name) and isinstance(n.ctx, ast.Store):
+            counts[n.id] = counts.get(n.id, 0) + 1
+        if isinstance(n, (ast.Assign, ast.AnnAssign)) and n.value is not None:
+            for t in (n.targets if isinstance(n, ast.Assign) else [n.target]):
+                if isinstance(t, ast.Name):
+                    vals[t.id] = n.value
+    return {k: e for k, e in vals.items() if counts.get(k) == 1 and k not in v.param_names}
 
 
 def _leaves(v: FuncInfo, e: ast.expr, seen: set[str] | None = None) -> list[ast.expr]:
-    """Expressions a value may come from: conditional expressions are split, single-purpose locals are followed to their assignments."""
+    """Expressions a value may come from: conditional expressions are split, plain locals are followed to their assignments."""
     seen = seen if seen is not None else set()
     if isinstance(e, ast.IfExp):
         return _leaves(v, e.body, seen) + _leaves(v, e.orelse, seen)
@@ -444,6 +452,130 @@ def _leaves(v: FuncInfo, e: ast.expr, seen: set[str] | None = None) -> list[ast.
         if out and simple:
             return out
     return [e]
+
+
+class _RewriteView:
+    """One function (view) in which the old value of the field is known under the texts `ident`."""
+
+    def __init__(self, repo: Repo, v: FuncInfo, ident: set[str], outer=None, depth: int = 0) -> None:
+        self.repo = repo
+        self.T = types_of(repo)
+        self.v = v
+        self.ident = set(ident)
+        self.outer = outer  # flag name -> True / None / False: what is known about the flag where this view was entered from
+        self.depth = depth
+        self.single = _single_assignments(v)
+        # locals that only ever alias the old value
+        for name, val in self.single.items():
+            if norm(val) in self.ident:
+                self.ident.add(name)
+
+    def is_old(self, e: ast.AST) -> bool:
+        return norm(e) in self.ident
+
+    def mentions_old(self, e: ast.AST) -> bool:
+        return any(self.is_old(x) for x in ast.walk(e) if isinstance(x, (ast.Attribute, ast.Name)))
+
+    def flag_set(self, node: ast.AST, k: str) -> bool | None:
+        """True: the path condition of `node` implies that flag k of the old value is set; False: there is no condition at all;
+        None: there is a condition, but it could not be related to the flag."""
+        guard = guard_formula(self.v, node)
+        texts = {f"{i}.{k}" for i in self.ident}
+        names = sorted(texts) + [n for n, val in self.single.items() if norm(val) in texts]
+        for a in names:
+            if implies(guard, atom(f"bool({a})")) or implies(guard, atom(f"{a} is True")):
+                return True
+        unconditional = guard == ("const", True)
+        if self.outer is not None:
+            o = self.outer(k)
+            if o:
+                return True
+            return False if (o is False and unconditional) else None
+        return False if unconditional else None
+
+    def keywords(self, call: ast.Call) -> tuple[dict[str, ast.expr], bool]:
+        """Keyword arguments with `**name` expanded where name is a dict display with constant keys; second item: all known."""
+        kw: dict[str, ast.expr] = {}
+        complete = True
+        for k in call.keywords:
+            if k.arg is not None:
+                kw[k.arg] = k.value
+                continue
+            d = k.value
+            if isinstance(d, ast.Name) and d.id in self.single:
+                d = self.single[d.id]
+            if isinstance(d, ast.Call) and isinstance(d.func, ast.Name) and d.func.id == "dict" and not d.args:
+                for kk in d.keywords:
+                    if kk.arg is not None:
+                        kw[kk.arg] = kk.value
+                    else:
+                        complete = False
+            elif isinstance(d, ast.Dict) and all(isinstance(x, ast.Constant) and isinstance(x.value, str) for x in d.keys):
+                for x, val in zip(d.keys, d.values):
+                    kw[x.value] = val  # type: ignore[union-attr]
+            else:
+                complete = False
+        return kw, complete
+
+    def classify(self, leaf: ast.expr) -> tuple[str, set[str], str]:
+        """('identity' | 'rebuild' | 'bad' | 'opaque', flags cleared, detail) for one value stored back into the field."""
+        if self.is_old(leaf):
+            return "identity", set(), ""
+        if not isinstance(leaf, ast.Call):
+            return "bad", set(), f"`{norm(leaf, 90)}` is neither the old value nor a guarded rebuild of it"
+        kw, complete = self.keywords(leaf)
+        rebuilt = False
+        if _is_replace(self.repo, self.v, leaf) and leaf.args and self.is_old(leaf.args[0]):
+            rebuilt = True
+        elif self.T.ctor_class(self.v, leaf) is not None and any(self.mentions_old(a) for a in [*leaf.args, *kw.values()]):
+            rebuilt = True
+        if rebuilt:
+            cleared, unsure = set(), False
+            for k, val in kw.items():
+                if _falsy_const(val):
+                    fs = self.flag_set(leaf, k)
+                    if fs:
+                        cleared.add(k)
+                    elif fs is None:
+                        unsure = True
+            if cleared:
+                return "rebuild", cleared, ""
+            if unsure or not complete:
+                return "opaque", set(), f"`{norm(leaf, 90)}` rebuilds the value under a condition that could not be related to a flag it clears"
+            return "bad", set(), f"`{norm(leaf, 90)}` builds a new value from the old one on a path that is not guarded by a flag of the old value which the new value clears: applying the rewrite twice differs from applying it once"
+        # a helper that could not be expanded in place: look at what it returns for the old value
+        if self.depth < 2:
+            try:
+                cs, _how = self.T.callees(self.v, leaf, byname_fallback=False)
+            except Exception:  # noqa: BLE001
+                cs = []
+            cs = [c for c in cs if not c.is_abstract]
+            if len(cs) == 1 and not isinstance(cs[0].node, ast.Lambda):
+                h = cs[0]
+                a = h.node.args
+                pos = [p.arg for p in [*a.posonlyargs, *a.args]]
+                if Roots.self_name(h) is not None and pos:
+                    pos = pos[1:]
+                bound = [p for p, x in zip(pos, leaf.args) if self.is_old(x)] + [k.arg for k in leaf.keywords if k.arg and self.is_old(k.value)]
+                if len(bound) == 1:
+                    hv = inline_view(self.repo, h, self.T)
+                    inner = _RewriteView(self.repo, hv, {bound[0]}, outer=lambda k, leaf=leaf: self.flag_set(leaf, k), depth=self.depth + 1)
+                    rets = [n for n in own_nodes(hv.node) if isinstance(n, ast.Return) and n.value is not None]
+                    if rets:
+                        kinds, flags, details = [], set(), []
+                        for r in rets:
+                            for lf in _leaves(hv, r.value):
+                                k_, f_, d_ = inner.classify(lf)
+                                kinds.append(k_)
+                                flags |= f_
+                                if d_:
+                                    details.append(d_)
+                        if "bad" in kinds:
+                            return "bad", set(), details[0]
+                        if "opaque" in kinds:
+                            return "opaque", set(), details[0]
+                        return ("rebuild", flags, "") if "rebuild" in kinds else ("identity", set(), "")
+        return "opaque", set(), f"`{norm(leaf, 90)}` is computed by a call that could not be expanded"
 
 
 def _param_tainted(v: FuncInfo, params: set[str]) -> set[str]:
@@ -491,37 +623,30 @@ def find_rewrites(repo: Repo, root: FuncInfo) -> list[Rewrite]:
     others = {p for p in root.param_names if p != sn}
     tainted = _param_tainted(v, others) if others else set()
     for fld, stores in by_field.items():
-        ident = {f"{sn}.{fld}"}
-        # locals that only ever alias the old value
-        for n in own_nodes(v.node):
-            if isinstance(n, (ast.Assign, ast.AnnAssign)) and n.value is not None and norm(n.value) in ident:
-                tg = n.targets if isinstance(n, ast.Assign) else [n.target]
-                for t in tg:
-                    if isinstance(t, ast.Name) and _leaves(v, ast.Name(id=t.id, ctx=ast.Load())) and all(norm(x) == f"{sn}.{fld}" for x in _leaves(v, ast.Name(id=t.id, ctx=ast.Load()))):
-                        ident.add(t.id)
-        mentions_old = lambda e: any(norm(x) in ident for x in ast.walk(e) if isinstance(x, (ast.Attribute, ast.Name)))  # noqa: E731
+        rv = _RewriteView(repo, v, {f"{sn}.{fld}"})
         leaves: list[tuple[ast.AST, ast.expr]] = []
         for st in stores:
             for leaf in _leaves(v, st.value):
                 leaves.append((st, leaf))
-        if not any(mentions_old(leaf) for _st, leaf in leaves):
+        if not any(rv.mentions_old(leaf) for _st, leaf in leaves):
             continue  # not a rewrite of the old value: an ordinary write, judged by the effect rule
         rw = Rewrite(root, fld)
         for st in stores:
             src = getattr(st, "_src", None)
             rw.stores.append(src if src is not None else (root, st))
         for st, leaf in leaves:
-            kind, flags, detail = _classify_leaf(repo, v, leaf, ident, T)
-            if kind == "rebuild":
+            kind_, flags, detail = rv.classify(leaf)
+            if kind_ == "rebuild":
                 rw.flags |= flags
+            if kind_ in ("rebuild", "opaque"):
                 dep = sorted({x.id for x in ast.walk(leaf) if isinstance(x, ast.Name) and x.id in tainted})
                 if dep:
                     rw.verdict, rw.detail = "violated", f"the rewritten `{sn}.{fld}` depends on the argument(s) {', '.join(dep)} of {root.qualname}: the stored value differs between architectures"
-            elif kind == "bad" and rw.verdict != "violated":
+            if kind_ == "bad" and rw.verdict != "violated":
                 rw.verdict, rw.detail = "violated", detail
-            elif kind == "opaque" and rw.verdict == "idempotent":
+            elif kind_ == "opaque" and rw.verdict == "idempotent":
                 rw.verdict, rw.detail = "undecided", detail
-        if rw.verdict == "idempotent" and not rw.flags and all(norm(leaf) in ident for _st, leaf in leaves):
+        if rw.verdict == "idempotent" and not rw.flags:
             rw.detail = f"`{sn}.{fld}` is only ever re-assigned to itself"
         elif rw.verdict == "idempotent":
             rw.detail = f"`{sn}.{fld}` is replaced by a rebuilt copy only while its flag {', '.join(sorted(rw.flags))} is set, and the copy clears that flag; otherwise it is stored back unchanged: applying the rewrite twice equals applying it once, and the rewrite does not look at the architecture"
